@@ -256,7 +256,11 @@ func C15(rep *ev.Reporter, tier string) {
 	rep.Coverage["poll_flip_points"] = pollPoints
 	rep.Coverage["event_flip_points"] = eventPoints
 	rep.Coverage["distinct_nontrivial"] = nontrivial
-	rep.Coverage["order_controlled"] = hx.OrderControlled
+	rep.Coverage["order_controlled"] = hx.OrderLive()
+	if !hx.OrderLive() {
+		rep.Exhaustive = false
+		rep.Coverage["order_note"] = "the rule-order hook is not live on this tree: rule orders were NOT enumerated (each run took whatever order the Go runtime chose)"
+	}
 	if bud.Hit() {
 		rep.Exhaustive = false
 		rep.Coverage["caps_hit"] = "time budget"
